@@ -433,6 +433,11 @@ func (f *frame) specLvals(e SExpr, env *specEnv) []*lval {
 		return []*lval{{kind: lvField, heap: t.ghost("xxhLen", SInt), idx: v.e, typ: types.Typ[types.Int]},
 			{kind: lvField, heap: t.ghost("xxhData", ArrayOf(SInt, SInt)), idx: v.e}}
 	}
+	if c, ok := e.(*SCall); ok && strings.HasPrefix(c.Fun, "Gh_") && len(c.Args) == 1 {
+		// a named ghost integer of an object: Gh_name(x) as an lvalue, gh_name(x) as a value
+		v := f.specExpr(c.Args[0], env)
+		return []*lval{{kind: lvField, heap: t.ghost("gh_"+strings.TrimPrefix(c.Fun, "Gh_"), SInt), idx: v.e, typ: types.Typ[types.Int]}}
+	}
 	if c, ok := e.(*SCall); ok && (c.Fun == "In" || c.Fun == "Out") && len(c.Args) == 1 {
 		v := f.specExpr(c.Args[0], env)
 		if c.Fun == "In" {
@@ -680,6 +685,9 @@ func (f *frame) specCall(x *SCall, env *specEnv) sval {
 	}
 	if x.Fun == "is_nil_iface" {
 		return sval{e: Eq(arg(0).e, th.AddrLit(0)), typ: boolT}
+	}
+	if strings.HasPrefix(x.Fun, "gh_") && len(x.Args) == 1 {
+		return sval{e: Select(f.specCell(t.ghost(x.Fun, SInt), env), arg(0).e), typ: intT}
 	}
 	switch x.Fun {
 	case "len":
